@@ -265,11 +265,13 @@ Proof.
 Qed.
 
 Definition step_post (st st' : pst) : Prop :=
-  (p_i st < p_i st')%nat /\ length (p_l st') = length (p_l st) /\ ymd_inv (p_y st').
+  (p_i st < p_i st')%nat /\ length (p_l st') = length (p_l st) /\ ymd_inv (p_y st') /\
+  (p_sk st' = p_sk st \/ p_sk st' = p_i st :: p_sk st).
 
 Ltac sleaf :=
-  cbn [post p_i p_l p_y]; cbn beta in *;
-  split; [lia | split; [rewrite ?set_nth_length; reflexivity | assumption]].
+  cbn [post p_i p_l p_y p_sk]; cbn beta in *;
+  split; [lia | split; [rewrite ?set_nth_length; reflexivity | split; [assumption |
+  first [left; reflexivity | right; reflexivity]]]].
 
 Lemma bind_assoc {A B C} (x : R A) (f : A -> R B) (g : B -> R C) :
   bind (bind x f) g = bind x (fun a => bind (f a) g).
@@ -299,6 +301,12 @@ Ltac sstep :=
   | |- post _ (Ok _) => sleaf
   end.
 
+Lemma nth_set_nth_other (l : list str) : forall i j v, i <> j -> nth j (set_nth l i v) [] = nth j l [].
+Proof.
+  induction l as [|x l IH]; intros [|i] [|j] v H; cbn [set_nth nth]; try reflexivity; try congruence.
+  apply IH. congruence.
+Qed.
+
 Lemma post_parse_step fz cur st :
   50 <= cur -> ymd_inv (p_y st) -> post (step_post st) (parse_step fz cur st).
 Proof.
@@ -319,17 +327,37 @@ Proof.
 Qed.
 
 (* ---- the loop: the index grows, so `number of tokens` iterations suffice ---- *)
-Lemma post_parse_loop fz cur : 50 <= cur -> forall fuel st,
-  ymd_inv (p_y st) -> (length (p_l st) - p_i st <= fuel)%nat ->
-  post (fun st' => ymd_inv (p_y st')) (parse_loop fuel fz cur st).
+(* skipped indices: strictly decreasing (most recent first), all below the current index *)
+Fixpoint sk_desc (bound : nat) (sk : list nat) : Prop :=
+  match sk with [] => True | k :: sk' => (k < bound)%nat /\ sk_desc k sk' end.
+
+Lemma sk_desc_weaken sk : forall b b', (b <= b')%nat -> sk_desc b sk -> sk_desc b' sk.
+Proof. destruct sk as [|k sk]; cbn; [auto|]. intros b b' Hb [H1 H2]. split; [lia|assumption]. Qed.
+
+Lemma sk_desc_lt sk : forall b k, sk_desc b sk -> In k sk -> (k < b)%nat.
 Proof.
-  intros Hc. induction fuel as [|f IH]; intros st Hy Hf; cbn [parse_loop].
+  induction sk as [|x sk IH]; cbn; [tauto|]. intros b k [H1 H2] [<- | Hin]; [assumption|].
+  specialize (IH x k H2 Hin). lia.
+Qed.
+
+(* loop invariant: ymd invariant; skipped indices strictly decreasing and below the index *)
+Definition loop_inv (st : pst) : Prop := ymd_inv (p_y st) /\ sk_desc (p_i st) (p_sk st).
+
+Lemma post_parse_loop fz cur : 50 <= cur -> forall fuel st,
+  loop_inv st -> (length (p_l st) - p_i st <= fuel)%nat ->
+  post loop_inv (parse_loop fuel fz cur st).
+Proof.
+  intros Hc. induction fuel as [|f IH]; intros st Hinv Hf; cbn [parse_loop].
   - destruct (length (p_l st) <=? p_i st)%nat eqn:E; cbn [post]; [assumption|].
     apply Nat.leb_gt in E. lia.
   - destruct (length (p_l st) <=? p_i st)%nat eqn:E; cbn [post]; [assumption|].
-    apply Nat.leb_gt in E.
+    apply Nat.leb_gt in E. destruct Hinv as (Hy & Hsk).
     eapply post_bind; [apply post_parse_step; assumption|].
-    intros st' (H1 & H2 & H3). apply IH; [assumption|]. rewrite H2. lia.
+    intros st' (H1 & H2 & H3 & H4). apply IH; [|rewrite H2; lia].
+    split; [assumption|].
+    destruct H4 as [-> | ->].
+    + eapply sk_desc_weaken; [|exact Hsk]. lia.
+    + cbn [sk_desc]. split; [lia|assumption].
 Qed.
 
 (* the progress statement on its own: every iteration that succeeds moves the index forward *)
@@ -438,10 +466,11 @@ Proof.
   intros Hc. unfold parse_res. cbv zeta.
   set (l := timelex s).
   pose proof (post_parse_loop (fz || fwt) cur Hc (length l) (mkSt l 0 res_empty ymd_empty [])
-                ymd_inv_empty) as PL.
+                (conj ymd_inv_empty I)) as PL.
   cbn [p_l p_i] in PL. specialize (PL ltac:(lia)).
   destruct (parse_loop _ _ _ _) as [st|e]; cbn [post bind] in *.
-  - pose proof (post_resolve_ymd (p_y st) yf df PL) as PR.
+  - destruct PL as [PL PLsk].
+    pose proof (post_resolve_ymd (p_y st) yf df PL) as PR.
     destruct (resolve_ymd (p_y st) yf df) as [[[yy mm] dd]|e]; cbn [post bind] in *.
     + destruct PR as (P1 & _). cbn [fst snd] in P1.
       cbn [p_r].
